@@ -392,7 +392,7 @@ func c16TrackLists(tier string) [][]trackSpec {
 func c16Scens(tier string) []e1Scen {
 	var out []e1Scen
 	for _, variant := range []string{"fmp4", "ll", "mpegts"} {
-		for _, tl := range c16TrackLists(tier) {
+		for tli, tl := range c16TrackLists(tier) {
 			if variant == "mpegts" {
 				ok := true
 				na := 0
@@ -445,6 +445,12 @@ func c16Scens(tier string) []e1Scen {
 				}
 				out = append(out, e1Scen{Prop: "C16", Cfg: cfg, Alpha: word, Mode: "long", Len: len(word), Query: q, Name: "c16-word"})
 			}
+			// the same from disk storage (segment sizes then come from the finalized file, not from the RAM parts)
+			if tli%3 == 0 || tier == "thorough" {
+				dcfg := cfg
+				dcfg.Disk = true
+				out = append(out, e1Scen{Prop: "C16", Cfg: dcfg, Alpha: word, Mode: "long", Len: len(word), Name: "c16-word"})
+			}
 		}
 	}
 	// zero-duration segments and parameter changes at the same instant (single-stream, bandwidth formulas)
@@ -464,6 +470,9 @@ func c16Scens(tier string) []e1Scen {
 			depth = 6
 		}
 		out = append(out, e1Shard(e1Scen{Prop: "C16", Cfg: cfg, Alpha: a, Depth: depth, Mode: "tree", Name: "c16-zero-duration-tree"}, 4)...)
+		dcfg := cfg
+		dcfg.Disk = true
+		out = append(out, e1Shard(e1Scen{Prop: "C16", Cfg: dcfg, Alpha: a, Depth: depth - 1, Mode: "tree", Name: "c16-zero-duration-tree"}, 2)...)
 	}
 	return out
 }
